@@ -2934,7 +2934,7 @@ class Set(Collection):
         if items and (attr.lazy or not setdata):
             items = list(items)
             if not reverse.is_collection:
-                sql, adapter, attr_offsets = rentity._construct_batchload_sql_(len(items))
+                sql, adapter, attr_offsets = rentity._construct_batchload_sql_(len(items), wanted_attr=reverse)
                 arguments = adapter(items)
                 cursor = database._exec_sql(sql, arguments)
                 items = rentity._fetch_objects(cursor, attr_offsets)
@@ -3386,7 +3386,7 @@ class SetInstance(object):
                 where_list.append([ converter.EQ, [ 'COLUMN', None, column ], [ 'PARAM', (i, None, None), converter ] ])
             if not reverse.is_collection:
                 table_name = rentity._table_
-                select_list, attr_offsets = rentity._construct_select_clause_()
+                select_list, attr_offsets = rentity._construct_select_clause_(query_attrs=(reverse,))
             else:
                 table_name = attr.table
                 item_columns = attr.reverse_columns if attr.symmetric else attr.columns
@@ -4265,13 +4265,15 @@ class EntityMeta(type):
         discr_values = [ [ 'VALUE', cls._discriminator_ ] for cls in entity._subclasses_ ]
         discr_values.append([ 'VALUE', entity._discriminator_])
         return [ 'IN', [ 'COLUMN', alias, discr_attr.column ], discr_values ]
-    def _construct_batchload_sql_(entity, batch_size, attr=None, from_seeds=True):
+    def _construct_batchload_sql_(entity, batch_size, attr=None, from_seeds=True, wanted_attr=None):
         pc = local.prefetch_context
         attrs_to_prefetch = pc.get_frozen_attrs_to_prefetch(entity) if pc is not None else ()
-        query_key = batch_size, attr, from_seeds, attrs_to_prefetch
+        query_key = batch_size, attr, from_seeds, attrs_to_prefetch, wanted_attr
         cached_sql = entity._batchload_sql_cache_.get(query_key)
         if cached_sql is not None: return cached_sql
-        select_list, attr_offsets = entity._construct_select_clause_(all_attributes=True)
+        # a lazy reference has to be fetched when the rows are matched to their owners by it
+        query_attrs = tuple(a for a in (attr, wanted_attr) if a is not None)
+        select_list, attr_offsets = entity._construct_select_clause_(query_attrs=query_attrs, all_attributes=True)
         from_list = [ 'FROM', [ None, 'TABLE', entity._table_ ]]
         if attr is None:
             columns = entity._pk_columns_
